@@ -16,6 +16,7 @@ type Clause struct {
 	Name string
 	Text string
 	Expr ast.Expr
+	NoAssume bool // proved but not assumed afterwards ("check")
 }
 
 type GhostVar struct {
@@ -246,7 +247,7 @@ func parseSpecExpr(text string) (ast.Expr, error) {
 }
 
 var letRe = regexp.MustCompile(`^let\s+([A-Za-z_][A-Za-z0-9_]*)\s*=\s*(.*)$`)
-var clauseRe = regexp.MustCompile(`^(requires|ensures|modifies|invariant|assert|lemma)(\[[A-Za-z0-9_\-\.]+\])?\s+(.*)$`)
+var clauseRe = regexp.MustCompile(`^(requires|ensures|modifies|invariant|assert|check|lemma)(\[[A-Za-z0-9_\-\.]+\])?\s+(.*)$`)
 
 func parseGhostList(s string) ([]GhostVar, error) {
 	var out []GhostVar
@@ -497,14 +498,15 @@ func (cs *ContractSet) loadContractFile(path, pkgPath string) error {
 					continue
 				}
 				m := clauseRe.FindStringSubmatch(strings.TrimSpace(f[1]))
-				if m == nil || m[1] != "assert" {
-					return fail(fmt.Errorf("before needs assert"))
+				if m == nil || (m[1] != "assert" && m[1] != "check") {
+					return fail(fmt.Errorf("before needs assert or check"))
 				}
 				e, err := parseSpecExpr(m[3])
 				if err != nil {
 					return fail(err)
 				}
-				cur.Befores[f[0]] = append(cur.Befores[f[0]], Clause{Name: strings.Trim(m[2], "[]"), Text: m[3], Expr: e})
+				// "check" is proved like "assert" but NOT assumed afterwards (for clauses that are known not to hold)
+				cur.Befores[f[0]] = append(cur.Befores[f[0]], Clause{Name: strings.Trim(m[2], "[]"), Text: m[3], Expr: e, NoAssume: m[1] == "check"})
 			case strings.HasPrefix(t, "at "), strings.HasPrefix(t, "after "):
 				// after callee#k assert expr  : proved, then assumed, after the statement containing that call
 				f := strings.SplitN(strings.TrimSpace(t[strings.Index(t, " ")+1:]), " ", 2)
